@@ -73,13 +73,15 @@ def handle (inp out : List String) : String :=
       verdict (model ++ out.drop 4) out prop
     | _, _ => "BADLINE c12 chain"
   | ["noise", k, n, bps, e] =>
-    match k.toNat?, n.toNat?, bps.toNat?, parseF e, out.mapM parseF with
+    match k.toNat?, n.toNat?, bps.toNat?, parseF e, (out.take 5).mapM parseF with
     | some k, some n, some bps, some ebn0, some [sg, cnt, mean, var, lag1] =>
+      let dup := out.getD 5 "0"
       let sigma := Modulation.noiseSigma Sc.float ebn0 (Float.ofNat k / Float.ofNat n) (Float.ofNat bps)
       let N := cnt
       let se := sigma / N.sqrt
       let prop : Option String :=
-        if !close sg sigma 1e-12 0 then some s!"harness-sigma-differs-from-model-sigma {sg} vs {sigma}"
+        if dup ≠ "0" then some s!"{dup}-LLR-frames-are-bit-identical-to-an-earlier-frame (noise not independent between frames / workers)"
+        else if !close sg sigma 1e-12 0 then some s!"harness-sigma-differs-from-model-sigma {sg} vs {sigma}"
         else if mean.abs > 6 * se then some s!"noise-mean-not-zero mean={mean} se={se}"
         else if (var - sigma * sigma).abs > 6 * sigma * sigma * (2 / N).sqrt then some s!"noise-variance-is-not-sigma^2 var={var} sigma^2={sigma*sigma}"
         else if lag1.abs > 6 * sigma * sigma / N.sqrt then some s!"noise-samples-correlated lag1={lag1}"
